@@ -4,6 +4,8 @@ Monitors: shape postcondition on every data command result; metamorphic monitors
 permutation pi of the cells of all inputs, and f(reshape x) == reshape f(x) for every rank-1/2/3 factorisation of the same cells.
 Element-wise commands and min/max/mean statistics: bit-identical on the dyadic lattice; z-score commands: 1e-9 tolerance.
 """
+import os
+
 import numpy
 
 from mpv import arr, cmdgen
@@ -13,7 +15,7 @@ LEVEL = "exploration"
 RULE = ("every built-in data command x shapes of rank 1-3 incl. length-1 axes x common cell permutation x reshape to another rank; "
         "element-wise commands on rasters of 1-2.1 million cells compared window by window with the command run on the window alone; "
         "distinct by (command, n, source shape rank, target rank, has length-1 axis, dtypes, mask class)")
-REQUIRED_COUNTERS = ["shape_postconditions", "permutation_checks", "reshape_checks", "layout_checks", "model_reshape_checks", "large_rasters_checked", "window_checks", "direct_execute_cases", "same_path_rearrangements"]
+REQUIRED_COUNTERS = ["shape_postconditions", "permutation_checks", "reshape_checks", "layout_checks", "model_reshape_checks", "large_rasters_checked", "window_checks", "direct_execute_cases", "same_path_rearrangements", "few_row_models", "written_files_compared"]
 ASSUMPTIONS = ["z-score commands compared with 1e-9 tolerance (float summation order), all others bit-exact on the dyadic lattice",
                "commands raising the same specific error on both sides are not judged"]
 
@@ -45,10 +47,16 @@ def cases(ctx):
         c["perm"] = perm
         c["reshape"] = list(rng.choice(factorisations(n, rng)))
         yield c
-    from mpv import big
+    from mpv import big, models
     for i in range(ctx.n(3, 30)):
         yield {"kind": "big", "cmd": big.NAMES[(i * ctx.nshards + ctx.shard) % len(big.NAMES)], "shape": list(big.SHAPES[(i + ctx.shard) % len(big.SHAPES)]),
                "rseed": rng.randrange(10 ** 9), "masked": i % 4 != 3}
+    # CSV tables of one, two and zero rows: every result is a vector of that many cells
+    for i in range(ctx.n(12, 600)):
+        nrows = [1, 1, 2, 1, 3][i % 5]
+        safe_ = [c for c in cmdgen.ALL if c not in cmdgen.STATS and "MeanToMid" not in c and "Curve" not in c]
+        m = models.gen_model(rng, n_ops=rng.randint(1, 6), sinks=rng.random() < 0.6, table=models.gen_table(rng, nrows=nrows, exotic_names=False), cmds=safe_)
+        yield {"kind": "csvrows", "model": m, "nrows": nrows}
     for i in range(ctx.n(3, 30)):
         j = i * ctx.nshards + ctx.shard
         yield {"kind": "bigstat", "cmd": BIGSTAT[j % len(BIGSTAT)], "shape": list(big.SHAPES[(j // 2) % len(big.SHAPES)]), "rseed": rng.randrange(10 ** 9),
@@ -70,6 +78,37 @@ def cases(ctx):
 BIGSTAT = [("Normalize", {}), ("CvtToFuzzy", {}), ("CvtToFuzzy", {"Direction": "HighToLow"}), ("CvtToFuzzy", {"TrueThreshold": 400}), ("NormalizeMeanToMid", {"IgnoreZeros": False, "NormalValues": [0, 1, 2, 3, 4]}),
            ("CvtToFuzzyMeanToMid", {"IgnoreZeros": True, "FuzzyValues": [-1, -0.5, 0, 0.5, 1]}), ("NormalizeZScore", {"TrueThresholdZScore": 1, "FalseThresholdZScore": -1}),
            ("CvtToFuzzyZScore", {"TrueThresholdZScore": 0.5, "FalseThresholdZScore": -0.75}), ("Normalize", {"StartVal": 2, "EndVal": 10})]
+
+
+def run_csvrows(ctx, case):
+    from mpv import models
+    model, n = case["model"], case["nrows"]
+    d = ctx.scratch()
+    ctx.count("few_row_models")
+    ctx.feature(("csvrows", n, tuple(sorted(set(c["cmd"] for c in model["commands"])))[:5]))
+    try:
+        prog = models.load(model, d)
+    except Exception as e:
+        ctx.dontcare("model does not load: %s" % type(e).__name__)
+        return
+    try:
+        prog.run()
+    except Exception as e:
+        inner = type(getattr(e, "exc", None)).__name__ if type(e).__name__ == "UnexpectedError" else None
+        if inner:
+            # a table of one row is a table: nothing in the model may choke on a one-cell vector
+            bad = [c["cmd"] for c in model["commands"]]
+            ctx.fail("model-over-%s-row-table:raises-UnexpectedError/%s" % ("a-one" if n == 1 else "a-few", inner), {"rows": n, "commands": bad[:8], "error": str(e)[:200]})
+        else:
+            ctx.dontcare("few-row model raises %s" % type(e).__name__)
+        return
+    for name, c in prog.commands.items():
+        r = c._result
+        if isinstance(r, numpy.ndarray):
+            ctx.count("shape_postconditions")
+            if tuple(r.shape) != (n,):
+                ctx.fail("%s:shape:table-of-%d-row%s" % (type(c).__name__, n, "" if n == 1 else "s"), {"result": name, "got": list(r.shape), "want": [n]})
+                return
 
 
 def run_bigstat(ctx, case):
@@ -176,6 +215,7 @@ def run_model(ctx, case):
     model = case["model"]
     variants = []
     dirs = []
+    written = []
     for shape in (case["shape_a"], case["shape_b"]):
         m = copy.deepcopy(model)
         m["table"]["shape"] = list(shape)
@@ -185,6 +225,7 @@ def run_model(ctx, case):
             prog = models.load(m, d)
             prog.run()
             variants.append((shape, {n: c._result for n, c in prog.commands.items() if isinstance(c._result, numpy.ndarray)}, None))
+            written.append(_read_written(os.path.join(d, "out.nc")))
         except Exception as e:
             variants.append((shape, None, e))
     ctx.count("model_reshape_checks")
@@ -206,6 +247,18 @@ def run_model(ctx, case):
         if dd:
             ctx.fail("%s:cells-not-independent:reshape:in-model" % by.get(n, "?"), {"result": n, "diff": dd, "shape_a": sa, "shape_b": sb})
             return
+    # what the model *wrote* (its EEMSWrite file), cell for cell, for the vector and for the grid
+    if len(written) == 2 and written[0] is not None and written[1] is not None:
+        ctx.count("written_files_compared")
+        for vname, (wm, wd) in written[0].items():
+            if vname not in written[1]:
+                ctx.fail("EEMSWrite:written-file-differs-between-shapes:variable-missing", {"variable": vname})
+                return
+            wm2, wd2 = written[1][vname]
+            if wm != wm2 or any(x != y for x, y, m_ in zip(wd, wd2, wm) if not m_):
+                i = [k for k, (a_, b_) in enumerate(zip(wm, wm2)) if a_ != b_]
+                ctx.fail("EEMSWrite:written-file-differs-between-shapes:%s" % ("missing-cells" if i else "values"), {"variable": vname, "cells": i[:5], "shape_a": sa, "shape_b": sb})
+                return
     # the input file regenerated *in place* with its cells in reverse order (same path, same size in bytes), the model loaded
     # and run again in this process: every result follows the rearrangement
     m = copy.deepcopy(model)
@@ -230,6 +283,21 @@ def run_model(ctx, case):
         if dd:
             ctx.fail("%s:cells-not-independent:input-file-rearranged-in-place:in-model" % by.get(n, "?"), {"result": n, "diff": dd, "shape": sa})
             return
+
+
+def _read_written(path):
+    """{variable: (mask cells, data cells)} of the result variables of a written NetCDF file, or None."""
+    if not os.path.exists(path):
+        return None
+    from netCDF4 import Dataset
+    out = {}
+    with Dataset(path) as ds:
+        for name, v in ds.variables.items():
+            if name in ds.dimensions or v.ndim == 0:
+                continue
+            a = numpy.ma.asarray(v[:])
+            out[name] = (numpy.ma.getmaskarray(a).reshape(-1).tolist(), numpy.ma.getdata(a).reshape(-1).tolist())
+    return out
 
 
 def _same(cmd, a, b):
@@ -257,6 +325,8 @@ def run_case(ctx, case):
         return run_big(ctx, case)
     if case.get("kind") == "bigstat":
         return run_bigstat(ctx, case)
+    if case.get("kind") == "csvrows":
+        return run_csvrows(ctx, case)
     cmd, params = case["cmd"], case["params"]
     fuzzy_in = cmd in arr.FUZZY_INPUT
     base_specs = case["inputs"]
